@@ -53,3 +53,13 @@ package polling
 // needs that mutex of the same object; checked in lock mode over every function of the package).
 //@ type pollQueue
 //@   guarded_by (mu) packets
+
+// C17: a request on a live polling session is routed by its method: GET polls, POST delivers data, and any other
+// method reaches neither handler - it cannot alter the session.
+//@ func (*ServerTransport).ServeHTTP
+//@   opt safety off
+//@   requires r != nil
+//@   callsite (*ServerTransport).handlePollRequest
+//@     requires r.Method == "GET" [C17.polling.only.get.polls]
+//@   callsite (*ServerTransport).handleDataRequest
+//@     requires r.Method == "POST" [C17.polling.only.post.delivers]
